@@ -1,0 +1,135 @@
+//go:build verif
+
+package fasthttp
+
+// Contracts for client.go, checked by /verif/gocv (comment-only; compiled to nothing).
+
+// HostClient.Do: the retry loop. `sent` counts transmissions (calls of c.do); `idem` is the value of
+// isIdempotent(req), assumed not to be changed by c.do.
+//@ func HostClient.Do results err
+//@   property C19
+//@   mode skeleton
+//@   nooverflow
+//@   stable c.MaxIdemponentCallAttempts c.RetryIf c.RetryIfErr c.RetryIfErrUpstream
+//@   ghost sent int = 0
+//@   ghost idem bool
+//@   ghost ndRetry bool = false
+//@   ghost lastUntil int = 0
+//@   ghost inLoop bool = false
+//@   ghost pend int = 0
+//@   on call HostClient.do:
+//@     requires[within-deadline] timeout > 0 ==> lastUntil > 0
+//@     effect sent = sent + 1
+//@   on call value:retryFunc -> r:
+//@     returns c.RetryIf == nil ? idem : ndRetry
+//@   on call time.Until -> d:
+//@     effect lastUntil = d
+//@   on call time.Now:
+//@     requires[deadline-moves-only-on-reset] inLoop ==> resetTimeout
+//@   on call atomic.AddInt32(_, d):
+//@     effect pend = pend + d
+//@   end
+//@   loop 1:
+//@     iter ndRetry = *; lastUntil = 0; inLoop = true
+//@     invariant[count]       sent == attempts && attempts < maxAttempts
+//@     invariant[pending]     pend == 1
+//@     invariant[stream-once] hasBodyStream ==> sent == 0
+//@     invariant[idem-only]   c.RetryIf == nil && c.RetryIfErr == nil && c.RetryIfErrUpstream == nil && !idem ==> sent == 0
+//@   ensures[bounded]             sent <= maxAttempts && (c.MaxIdemponentCallAttempts > 0 ? maxAttempts == c.MaxIdemponentCallAttempts : maxAttempts == 5)
+//@   ensures[body-stream-once]    hasBodyStream ==> sent <= 1
+//@   ensures[non-idempotent-once] c.RetryIf == nil && c.RetryIfErr == nil && c.RetryIfErrUpstream == nil && !idem ==> sent <= 1
+//@   ensures[pending-balanced]    pend == 0
+
+//@ func isIdempotent results r
+//@   property C19
+//@   mode skeleton
+//@   ghost get bool
+//@   ghost head bool
+//@   ghost put bool
+//@   on call RequestHeader.IsGet -> r:
+//@     returns get
+//@   on call RequestHeader.IsHead -> r:
+//@     returns head
+//@   on call RequestHeader.IsPut -> r:
+//@     returns put
+//@   end
+//@   ensures[get-head-put-only] r == (get || head || put)
+
+// doNonNilReqResp: a request is only handed to the transport when its scheme matches the client's IsTLS.
+//@ func HostClient.doNonNilReqResp results retry err
+//@   property C21 C19
+//@   mode skeleton
+//@   stable c.IsTLS
+//@   ghost https bool
+//@   ghost tripped bool = false
+//@   on call URI.isHTTPS -> r:
+//@     returns https
+//@   on call RoundTripper.RoundTrip:
+//@     requires[scheme-matches] c.IsTLS == https
+//@     effect tripped = true
+//@   end
+//@   ensures[refuses-mismatch] c.IsTLS != https ==> !tripped && !retry && err == ErrHostClientRedirectToDifferentScheme
+
+// transport.RoundTrip: the connection goes back to the pool only after a completely read response that did
+// not say close; every acquired connection is released or closed exactly once (or handed to the stream closer).
+//@ func transport.RoundTrip results retry err
+//@   property C04 C10 C19
+//@   mode skeleton
+//@   ghost reqClose bool
+//@   ghost respClose bool
+//@   ghost readOK bool = false
+//@   ghost tooLarge bool = false
+//@   ghost acquired bool = false
+//@   ghost released int = 0
+//@   ghost closed int = 0
+//@   ghost deferred bool = false
+//@   on call Request.ConnectionClose -> r:
+//@     returns reqClose
+//@   on call Request.SetConnectionClose:
+//@     effect reqClose = true
+//@   on call RequestHeader.ResetConnectionClose:
+//@     effect reqClose = false
+//@   on call Response.ConnectionClose -> r:
+//@     returns respClose
+//@   on call HostClient.AcquireConn -> cc, e:
+//@     effect acquired = (e == nil)
+//@   on call Response.ReadLimitBody -> e:
+//@     effect readOK = (e == nil); tooLarge = (e == ErrBodyTooLarge); respClose = *
+//@   on call HostClient.ReleaseConn:
+//@     requires[response-fully-read] @C04 readOK && !deferred
+//@     requires[not-after-close] @C10 !respClose && !reqClose && !resetConnection
+//@     effect released = released + 1
+//@   on call HostClient.CloseConn:
+//@     effect closed = closed + 1
+//@   on call newCloseReaderWithError:
+//@     effect deferred = true
+//@   end
+//@   ensures[conn-accounted] @C04 acquired ==> (deferred ? released + closed == 0 : released + closed == 1)
+//@   ensures[not-acquired] @C04 @C19 !acquired ==> released + closed == 0 && !retry
+//@   ensures[too-large-no-retry] @C19 tooLarge ==> !retry
+//@   ensures[success-no-retry] @C19 err == nil ==> !retry
+
+// The closer of a streamed response body: the connection is reused only if the stream was read to its end.
+//@ func transport.RoundTrip$1
+//@   property C04 C10
+//@   mode skeleton
+//@   ghost respClose bool
+//@   ghost isStream bool = false
+//@   ghost lastDrained bool = false
+//@   ghost released int = 0
+//@   ghost closed int = 0
+//@   on call Response.ConnectionClose -> r:
+//@     returns respClose
+//@   on call requestStream.drained -> d:
+//@     effect lastDrained = d
+//@   on call releaseRequestStream:
+//@     effect isStream = true
+//@   on call HostClient.ReleaseConn:
+//@     requires[body-read-to-end] @C04 isStream ==> lastDrained
+//@     requires[no-copy-error] @C04 wErr == nil
+//@     requires[not-after-close] @C10 !closeConn && !respClose
+//@     effect released = released + 1
+//@   on call HostClient.CloseConn:
+//@     effect closed = closed + 1
+//@   end
+//@   ensures[at-most-once] released + closed <= 1
